@@ -811,15 +811,26 @@ Plan gen_C11(Gen &g, Plan p)
         }
         return ops;
     };
+    // a fifth of the plans: a second thread raises a fatal message too (whichever gets to abort()
+    // first terminates the process)
+    int fatal_thread2 = g.r.chance(1, 5) ? (int)g.r.below(np + 1) : -1;
     int nmain = g.r.chance(1, 6) ? 0 : (int)g.r.range(0, g.r.chance(1, 5) ? 60 : 8);
     for (int i = 0; i < np; i++) {
         int n = g.r.chance(1, 6) ? 0 : (int)g.r.range(0, g.r.chance(1, 5) ? 60 : 8);
-        p.producers.push_back(gen_msgs(n, fatal_thread == i + 1));
+        p.producers.push_back(gen_msgs(n, fatal_thread == i + 1 || fatal_thread2 == i + 1));
     }
-    auto mainmsgs = gen_msgs(nmain, fatal_thread == 0);
+    auto mainmsgs = gen_msgs(nmain, fatal_thread == 0 || fatal_thread2 == 0);
+    // a fifth of the plans: the logger was asynchronous for a while and is synchronous again
+    if (g.r.chance(1, 5)) {
+        p.main_ops.push_back(mkop("move"));
+        if (g.r.chance(1, 2))
+            p.main_ops.push_back(gen_log(g, false));
+        p.main_ops.push_back(mkop(p.app && g.r.chance(1, 3) ? "exec_quit" : "reset"));
+        p.cfg["was_async"] = true;
+    }
     // main: some of its own messages first, spawn, rest, join
     size_t cut = mainmsgs.size() ? g.r.below(mainmsgs.size() + 1) : 0;
-    if (fatal_thread == 0)
+    if (fatal_thread == 0 || fatal_thread2 == 0)
         cut = 0; // spawn first so that others can be concurrent with the fatal call
     for (size_t i = 0; i < cut; i++)
         p.main_ops.push_back(mainmsgs[i]);
